@@ -500,6 +500,15 @@ def array(obj, dtype=None, **k):
 def asarray(obj, dtype=None, **k):
     if is_obj(obj) and dtype is None:
         return _view(obj)
+    if is_obj(obj) and dtype is not None:
+        # an object array of XF scalars stands for a float64 array: np.asarray(a, dtype=float64) of a float64 array is the array itself
+        # (no copy), and writes through the result must alias exactly as they do in numpy
+        try:
+            want_float64 = real_np.dtype(dtype) == real_np.float64
+        except TypeError:
+            want_float64 = False
+        if want_float64 and all(isinstance(x, (XF, float)) for x in real_np.asarray(obj).reshape(-1)):
+            return _view(obj)
     return array(obj, dtype=dtype)
 
 
